@@ -1000,3 +1000,55 @@ Proof.
   eexists. split; [vm_compute; reflexivity|]. split; [reflexivity|]. split; [reflexivity|].
   split; [repeat constructor|vm_compute; reflexivity].
 Qed.
+
+(* ------------------------------------------------------------------ the connecting map itself never grows by a datagram *)
+Lemma filter_len_le {A} (f : A -> bool) l : (length (filter f l) <= length l)%nat.
+Proof. induction l as [|x r IH]; cbn [filter length]; [lia|]. destruct (f x); cbn [length]; lia. Qed.
+
+Lemma filter_len_lt {A} (f : A -> bool) l x : In x l -> f x = false -> (length (filter f l) < length l)%nat.
+Proof.
+  induction l as [|y r IH]; cbn [filter length In]; [tauto|].
+  intros [->|Hin] Hf.
+  - rewrite Hf. pose proof (filter_len_le f r). lia.
+  - specialize (IH Hin Hf). destruct (f y); cbn [length]; lia.
+Qed.
+
+Lemma set_slots_length_le s addr sl x : get_slots s addr = Some sl ->
+  (length (set_slots (d_connecting s) addr x) <= length (d_connecting s))%nat.
+Proof.
+  unfold get_slots, set_slots. destruct (find _ (d_connecting s)) as [p|] eqn:Ef; [|discriminate]. intros _.
+  apply find_some in Ef. destruct Ef as [Hin Hp].
+  assert (Hlt : (length (filter (fun p0 : Z * list (option connecting) => negb (fst p0 =? addr)%Z) (d_connecting s)) < length (d_connecting s))%nat).
+  { apply (filter_len_lt _ _ p Hin). cbv beta. rewrite Hp. reflexivity. }
+  destruct x; [rewrite app_length; cbn [length]; lia|lia].
+Qed.
+
+Lemma on_recv_connecting_size s addr m s' e :
+  on_recv s addr m = (s', e) -> (length (d_connecting s') <= length (d_connecting s))%nat.
+Proof.
+  unfold on_recv. destruct (find_stream s _) as [en|].
+  - destruct (se_alive en); intro H; injection H as <- _; dsimpl; lia.
+  - destruct (dm_type m); try (intro H; injection H as <- _; lia).
+    + unfold on_maybe_connect_ack. destruct (streams_full s); [intro H; injection H as <- _; lia|].
+      destruct (get_slots s addr) as [sl|] eqn:Eg; [|intro H; injection H as <- _; lia].
+      destruct (slots_pop _ sl) as [[c sl']|]; [|intro H; injection H as <- _; lia].
+      destruct (mem_z _ _); intro H; injection H as <- _; dsimpl; eapply set_slots_length_le; exact Eg.
+    + intro H. destruct (on_syn_keeps _ _ _ _ H) as (_ & _ & _ & _ & K5 & _). rewrite K5. lia.
+Qed.
+
+Theorem raw_step_connecting_size s pushes addr bs s' e :
+  d_inv s -> rstep s (RopRaw pushes addr bs) = Some (s', e) ->
+  (length (d_connecting s') <= length (d_connecting s))%nat.
+Proof.
+  intros Hinv H.
+  assert (Hex : exists om, dstep s (DoRunOnce pushes (ArmRecv addr om)) = (s', e)).
+  { unfold rstep in H. cbn [rop_dop] in H. destruct (parse_raw bs) as [| |m]; [discriminate| |];
+      injection H as H; [exists None|exists (Some m)]; exact H. }
+  destruct Hex as [om Hd].
+  destruct (run_once_decomp _ _ _ _ _ Hinv Hd) as (s1 & e1 & e3 & Ec & Ea & -> & _ & _ & _ & _ & Hsame).
+  destruct (cleanup_keeps _ _ _ Ec) as (_ & _ & _ & _ & K5 & _).
+  destruct Hsame as (_ & P2 & _).
+  unfold arm_step in Ea. destruct om as [m|].
+  - pose proof (on_recv_connecting_size _ _ _ _ _ Ea). rewrite P2, K5 in *. lia.
+  - injection Ea as <- _. rewrite P2, K5. lia.
+Qed.
